@@ -94,3 +94,33 @@ Proof.
   - repeat constructor; simpl; try discriminate; try no_sep.
 Qed.
 Print Assumptions ode_modifiers_example.
+
+(** solver selection: what `naunet init` stores is the method that was asked for, or (when none was given) the
+    first method of the table entry - an unsupported combination is refused, never replaced; for EVERY table *)
+Theorem selection_kept_or_refused : forall tbl solver device method,
+  match select_method tbl solver device method with
+  | SelKept m => method = Some m /\ exists devs choices, alookup solver tbl = Some devs /\ alookup device devs = Some choices /\ In m choices
+  | SelDefault m => method = None /\ exists devs choices, alookup solver tbl = Some devs /\ alookup device devs = Some choices /\ hd_error choices = Some m
+  | SelRefused => True
+  end.
+Proof.
+  intros tbl solver device method. unfold select_method.
+  destruct (alookup solver tbl) as [devs|] eqn:Hs; [|exact I].
+  destruct (alookup device devs) as [choices|] eqn:Hd; [|exact I].
+  destruct method as [m|].
+  - destruct (existsb (String.eqb m) choices) eqn:He; [|exact I].
+    split; [reflexivity|]. exists devs, choices. repeat split; auto.
+    apply existsb_exists in He. destruct He as (x & Hin & Hx). apply String.eqb_eq in Hx. subst x. exact Hin.
+  - destruct choices as [|c cs]; [exact I|]. split; [reflexivity|]. exists devs, (c :: cs). repeat split; auto.
+Qed.
+Print Assumptions selection_kept_or_refused.
+
+(* on the table read from /repo's init.py on this run: the supported selections are kept, the others refused *)
+Theorem live_selection_table :
+  map (fun t : string * string * string => select_method init_allowed_methods (fst (fst t)) (snd (fst t)) (Some (snd t)))
+      [("cvode", "cpu", "dense"); ("cvode", "cpu", "sparse"); ("cvode", "gpu", "cusparse"); ("odeint", "cpu", "rosenbrock4");
+       ("cvode", "cpu", "cusparse"); ("cvode", "gpu", "sparse"); ("cvode", "cpu", "Sparse"); ("odeint", "cpu", "dense"); ("lsoda", "cpu", "dense")]
+  = [SelKept "dense"; SelKept "sparse"; SelKept "cusparse"; SelKept "rosenbrock4"; SelRefused; SelRefused; SelRefused; SelRefused; SelRefused]
+  /\ select_method init_allowed_methods "cvode" "cpu" None = SelDefault "dense".
+Proof. split; reflexivity. Qed.
+Print Assumptions live_selection_table.
